@@ -201,9 +201,18 @@ func HarnessC18_DagServices() {
 
 func init() { vfRegisterBubble("HarnessC18_Runtime", HarnessC18_Runtime) }
 
-type vfC18Err struct{}
+// vfC18Err: a start failure; optionally one that wraps context.Canceled (a
+// service whose own start-up was aborted reports such an error although the
+// dependant's context is alive).
+type vfC18Err struct{ cancelled bool }
 
 func (vfC18Err) Error() string { return "start failed" }
+func (e vfC18Err) Unwrap() error {
+	if e.cancelled {
+		return context.Canceled
+	}
+	return nil
+}
 
 // HarnessC18_Runtime: the run-time half. Every forward-edge DAG on n modules;
 // each module may or may not have a service; each service's starting function
@@ -236,6 +245,7 @@ func HarnessC18_Runtime() {
 	}
 	hasSvc := make([]bool, n)
 	failStart := make([]bool, n)
+	failCancelled := make([]bool, n)
 	startGate := make([]chan struct{}, n)
 	stopGate := make([]chan struct{}, n)
 	started := make([]bool, n)
@@ -252,6 +262,9 @@ func HarnessC18_Runtime() {
 		hasSvc[i] = i == 0 || vfBool("has_service")
 		if hasSvc[i] {
 			failStart[i] = vfBool("fail_start")
+			if failStart[i] {
+				failCancelled[i] = vfBool("fail_wraps_cancelled")
+			}
 		}
 		startGate[i] = make(chan struct{})
 		stopGate[i] = make(chan struct{})
@@ -269,7 +282,7 @@ func HarnessC18_Runtime() {
 					}
 					<-startGate[i]
 					if failStart[i] {
-						return vfC18Err{}
+						return vfC18Err{cancelled: failCancelled[i]}
 					}
 					return nil
 				},
